@@ -1,0 +1,288 @@
+//! Verification hooks. Only compiled with `--cfg meshless_voro_verif`.
+//!
+//! Nothing in here changes the behaviour of the library: it gives an external
+//! conformance harness access to crate-private pieces (exact predicate,
+//! integer grid, nearest-neighbour stream, single clip, boundary cycle,
+//! auxiliary searches) and lets it record what the builder did.
+
+use std::sync::atomic::{AtomicBool, AtomicU64, Ordering};
+use std::sync::{Mutex, RwLock};
+
+use glam::DVec3;
+
+use super::boundary::SimulationBoundary;
+use super::convex_cell::{ConvexCell, Vertex, WithoutFaces};
+use super::half_space::HalfSpace;
+use super::{Dimensionality, Generator};
+use crate::bounding_sphere::{BoundingSphereSolver, Epos6, Welzl};
+use crate::geometry::{in_sphere_test_exact, Sphere};
+use crate::rtree_nn::{build_rtree, nn_iter, wrapping_nn_iter};
+use crate::simple_cycle::SimpleCycle;
+use crate::space::Space;
+
+// ---------------------------------------------------------------------------
+// counters and event sink
+// ---------------------------------------------------------------------------
+
+static EXACT_CALLS: AtomicU64 = AtomicU64::new(0);
+static TRACE_ON: AtomicBool = AtomicBool::new(false);
+static SEQ: AtomicU64 = AtomicU64::new(0);
+static SINK: Mutex<Vec<(u64, Event)>> = Mutex::new(Vec::new());
+#[allow(clippy::type_complexity)]
+static SCHED: RwLock<Option<Box<dyn Fn(usize) + Send + Sync>>> = RwLock::new(None);
+
+/// What the builder did. Emitted *after* the state change it describes.
+#[derive(Clone, Debug)]
+pub enum Event {
+    /// A worker picked up the construction of cell `idx`.
+    TaskStart { idx: usize, tid: Option<usize> },
+    /// A worker finished cell `idx` (its result slot is written).
+    TaskEnd { idx: usize, tid: Option<usize> },
+    /// The cell was initialised to the (tripled) box.
+    CellInit { cell: usize },
+    /// A candidate neighbour was taken from the nearest-neighbour stream.
+    Visit { cell: usize, ngb: usize, shift: Option<[f64; 3]>, dist: f64, safety_radius: f64 },
+    /// The builder stopped because of the safety radius (after a `Visit`).
+    Terminate { cell: usize },
+    /// One vertex was classified against the new plane.
+    ClipTest { cell: usize, dual: [usize; 3], filter: f64, exact: Option<f64> },
+    /// A clip finished. `removed` is empty when the plane did not cut.
+    ClipDone {
+        cell: usize,
+        plane_idx: usize,
+        removed: Vec<[usize; 3]>,
+        cycle: Vec<usize>,
+        created: Vec<[usize; 3]>,
+        safety_radius: f64,
+    },
+}
+
+/// Number of times the exact (big integer) predicate was consulted.
+pub fn exact_calls() -> u64 {
+    EXACT_CALLS.load(Ordering::SeqCst)
+}
+
+pub(crate) fn count_exact_call() {
+    EXACT_CALLS.fetch_add(1, Ordering::SeqCst);
+}
+
+/// Switch event recording on or off (off by default).
+pub fn trace_enable(on: bool) {
+    TRACE_ON.store(on, Ordering::SeqCst);
+}
+
+#[inline]
+pub(crate) fn tracing() -> bool {
+    TRACE_ON.load(Ordering::Relaxed)
+}
+
+/// Record an event. The sequence number is taken under the sink's lock.
+pub(crate) fn emit(ev: Event) {
+    if !tracing() {
+        return;
+    }
+    let mut sink = SINK.lock().unwrap_or_else(|e| e.into_inner());
+    let seq = SEQ.fetch_add(1, Ordering::SeqCst);
+    sink.push((seq, ev));
+}
+
+/// Take all recorded events (ordered by sequence number).
+pub fn trace_take() -> Vec<(u64, Event)> {
+    let mut sink = SINK.lock().unwrap_or_else(|e| e.into_inner());
+    std::mem::take(&mut *sink)
+}
+
+/// Install a callback that is invoked by a worker right before it builds cell `idx`
+/// (used to perturb the schedule).
+pub fn set_sched_point(f: Option<Box<dyn Fn(usize) + Send + Sync>>) {
+    *SCHED.write().unwrap_or_else(|e| e.into_inner()) = f;
+}
+
+pub(crate) fn sched_point(idx: usize) {
+    if let Some(f) = SCHED.read().unwrap_or_else(|e| e.into_inner()).as_ref() {
+        f(idx)
+    }
+}
+
+pub(crate) fn thread_id() -> Option<usize> {
+    #[cfg(feature = "rayon")]
+    return rayon::current_thread_index();
+    #[cfg(not(feature = "rayon"))]
+    None
+}
+
+// ---------------------------------------------------------------------------
+// exact predicate and integer grid
+// ---------------------------------------------------------------------------
+
+/// `in_sphere_test_exact` as is.
+pub fn in_sphere_exact(a: &[i64; 3], b: &[i64; 3], c: &[i64; 3], d: &[i64; 3], v: &[i64; 3]) -> f64 {
+    in_sphere_test_exact(a, b, c, d, v)
+}
+
+/// Wrapper around the crate-private `SimulationBoundary`.
+pub struct Boundary(SimulationBoundary);
+
+impl Boundary {
+    pub fn cuboid(anchor: DVec3, width: DVec3, periodic: bool, dimensionality: Dimensionality) -> Self {
+        Boundary(SimulationBoundary::cuboid(anchor, width, periodic, dimensionality))
+    }
+
+    pub fn iloc(&self, loc: DVec3) -> [i64; 3] {
+        self.0.iloc(loc)
+    }
+
+    pub fn clipping_planes(&self) -> &[HalfSpace] {
+        &self.0.clipping_planes
+    }
+}
+
+// ---------------------------------------------------------------------------
+// nearest neighbour stream
+// ---------------------------------------------------------------------------
+
+/// The sequence of candidates `(id, shift)` the builder would be offered for generator `idx`.
+pub fn nn_sequence(
+    generators: &[DVec3],
+    idx: usize,
+    width: DVec3,
+    dimensionality: Dimensionality,
+    periodic: bool,
+    limit: usize,
+) -> Vec<(usize, Option<DVec3>)> {
+    let generators: Vec<Generator> = generators
+        .iter()
+        .enumerate()
+        .map(|(id, &loc)| Generator::new(id, loc, dimensionality))
+        .collect();
+    let rtree = build_rtree(&generators);
+    let loc = generators[idx].loc();
+    let it = if periodic {
+        wrapping_nn_iter(&rtree, loc, width, dimensionality)
+    } else {
+        nn_iter(&rtree, loc)
+    };
+    it.take(limit).collect()
+}
+
+// ---------------------------------------------------------------------------
+// a single clip on a cell with a prescribed storage order
+// ---------------------------------------------------------------------------
+
+/// Everything needed to set up a cell in a given storage order and clip it once.
+pub struct ClipSetup<'a> {
+    pub generators: &'a [DVec3],
+    pub anchor: DVec3,
+    pub width: DVec3,
+    pub periodic: bool,
+    pub dimensionality: Dimensionality,
+    /// index of the generator that owns the cell
+    pub idx: usize,
+    /// planes 6.. of the cell (0..6 are the walls), as `(neighbour, shift)`
+    pub planes: &'a [(usize, Option<DVec3>)],
+    /// vertices as plane triples, in storage order and with the stored rotation
+    pub vertices: &'a [[usize; 3]],
+}
+
+fn bisector(loc: DVec3, generators: &[Generator], ngb: usize, shift: Option<DVec3>) -> HalfSpace {
+    let mut ngb_loc = generators[ngb].loc();
+    if let Some(shift) = shift {
+        ngb_loc += shift;
+    }
+    let dx = loc - ngb_loc;
+    let dist = dx.length();
+    HalfSpace::new(dx / dist, 0.5 * (loc + ngb_loc), Some(ngb), shift)
+}
+
+/// Build the cell described by `setup`, clip it by the bisector towards `(ngb, shift)` and
+/// return the resulting cell.
+pub fn clip_cell(setup: &ClipSetup, ngb: usize, shift: Option<DVec3>) -> ConvexCell<WithoutFaces> {
+    let generators: Vec<Generator> = setup
+        .generators
+        .iter()
+        .enumerate()
+        .map(|(id, &loc)| Generator::new(id, loc, setup.dimensionality))
+        .collect();
+    let boundary =
+        SimulationBoundary::cuboid(setup.anchor, setup.width, setup.periodic, setup.dimensionality);
+    let loc = generators[setup.idx].loc();
+    let mut planes = boundary.clipping_planes.clone();
+    for &(j, s) in setup.planes {
+        planes.push(bisector(loc, &generators, j, s));
+    }
+    let vertices: Vec<Vertex> = setup
+        .vertices
+        .iter()
+        .map(|d| Vertex::from_dual_verif(d[0], d[1], d[2], &planes, loc, setup.dimensionality))
+        .collect();
+    let mut cell = ConvexCell::new(loc, setup.idx, planes, vertices, setup.dimensionality);
+    cell.update_safety_radius_verif();
+    cell.clip_by_plane(bisector(loc, &generators, ngb, shift), &generators, &boundary);
+    cell
+}
+
+// ---------------------------------------------------------------------------
+// boundary cycle
+// ---------------------------------------------------------------------------
+
+/// Wrapper around the crate-private `SimpleCycle`.
+pub struct Cycle(SimpleCycle);
+
+impl Cycle {
+    pub fn new(capacity: usize) -> Self {
+        Cycle(SimpleCycle::new(capacity))
+    }
+    pub fn grow(&mut self) {
+        self.0.grow()
+    }
+    pub fn init(&mut self, a: usize, b: usize, c: usize) {
+        self.0.init(a, b, c)
+    }
+    pub fn try_extend(&mut self, a: usize, b: usize, c: usize) -> bool {
+        self.0.try_extend(a, b, c).is_ok()
+    }
+    pub fn len(&self) -> usize {
+        self.0.len
+    }
+    pub fn is_empty(&self) -> bool {
+        self.0.len == 0
+    }
+    /// The cycle, starting at its start element (`len` entries).
+    pub fn sequence(&self) -> Vec<usize> {
+        self.0.iter().take(self.0.len).collect()
+    }
+}
+
+// ---------------------------------------------------------------------------
+// auxiliary structures
+// ---------------------------------------------------------------------------
+
+/// `Space::new(..).add_parts(..).knn(k)`.
+pub fn space_knn(
+    anchor: DVec3,
+    width: DVec3,
+    max_cell_width: f64,
+    positions: &[DVec3],
+    k: usize,
+) -> Vec<Vec<usize>> {
+    let mut space = Space::new(anchor, width, max_cell_width);
+    space.add_parts(positions);
+    space.knn(k)
+}
+
+fn sphere_out(s: Sphere) -> (DVec3, f64) {
+    (s.center, s.radius)
+}
+
+pub fn welzl(points: &[DVec3]) -> (DVec3, f64) {
+    sphere_out(Welzl::bounding_sphere(points))
+}
+
+pub fn epos6(points: &[DVec3]) -> (DVec3, f64) {
+    sphere_out(Epos6::bounding_sphere(points))
+}
+
+pub fn epos6_spheres(spheres: &[(DVec3, f64)]) -> (DVec3, f64) {
+    let spheres: Vec<Sphere> = spheres.iter().map(|&(c, r)| Sphere::new(c, r)).collect();
+    sphere_out(Epos6::bounding_sphere_of_spheres(&spheres))
+}
